@@ -67,6 +67,14 @@ def c14(tapes, params):
         comm.SocketTimeout = 10.0
         if g.draw(3, 'connsize') == 0:
             comm.ConnectionSize = 504
+        # how the controller is reached: default backplane slot 0, another slot, or a routed
+        # (multi-hop) connection path through a remote rack -- all are stripped by the simulator
+        rk = g.draw(5, 'routek')
+        if rk == 0:
+            comm.ProcessorSlot = g.choice([1, 3, 15], 'slot')
+        elif rk == 1:
+            comm.Route = g.choice([[(1, 0), (2, '10.0.0.9'), (1, 0)], [(1, 3), (1, 0)], [(2, '192.168.1.20'), (1, 5)]], 'route')
+        stats['route'] = rk
         for n in range(nops):
             try:
                 one_call(comm, n)
